@@ -2,8 +2,10 @@ package main
 
 import (
 	"fmt"
+	"go/constant"
 	"go/token"
 	"go/types"
+	"strings"
 
 	"golang.org/x/tools/go/ssa"
 )
@@ -209,6 +211,7 @@ func checkT6(c *Ctx) {
 			r.Fatal("anchor moved: no success return found in %s", fn.Name())
 		}
 	}
+	checkT6e(c)
 	successExit(post, "opStack", lenEQ(0), "no unmatched opener left on the operator stack")
 	successExit(tree, "stack", lenEQ(1), "postfix program reduces to exactly one tree")
 
@@ -365,4 +368,121 @@ func exceptionFor(ex map[string]string, key string) (string, bool) {
 		}
 	}
 	return "", false
+}
+
+// checkT6e: the implicit EMPTY operand is inserted only between the two
+// brackets of an empty collection (`[]`, `{}`): every token-type comparison
+// that leads to the insertion names a collect bracket. An empty `()` must stay
+// an operand-less group so that the arity checks reject it.
+func checkT6e(c *Ctx) {
+	r := c.R
+	fn := c.libFunc("handleToken")
+	if fn == nil {
+		r.Fatal("anchor missing: handleToken")
+		return
+	}
+	allowed := map[string]bool{"openCollect": true, "closeCollect": true, "openCollectObject": true, "closeCollectObject": true}
+	var target *ssa.BasicBlock
+	var pos token.Pos
+	eachInstr(fn, func(ins ssa.Instruction) {
+		st, ok := ins.(*ssa.Store)
+		if !ok {
+			return
+		}
+		fa, ok := st.Addr.(*ssa.FieldAddr)
+		if !ok || fieldName(fa) != "OperationType" {
+			return
+		}
+		if u, ok := st.Val.(*ssa.UnOp); ok {
+			if g, ok := u.X.(*ssa.Global); ok && g.Name() == "emptyOpType" {
+				target, pos = st.Block(), st.Pos()
+			}
+		}
+	})
+	if target == nil {
+		r.Fatal("anchor moved: handleToken no longer inserts the EMPTY operation")
+		return
+	}
+	dom := target.Idom()
+	var bad []string
+	n := 0
+	for _, b := range fn.Blocks {
+		if b == target || dom == nil || !(dom.Dominates(b)) || !(b == dom || reaches(b, target)) || (b != dom && reaches(target, b)) {
+			continue
+		}
+		ifi, ok := b.Instrs[len(b.Instrs)-1].(*ssa.If)
+		if !ok {
+			continue
+		}
+		bo, ok := ifi.Cond.(*ssa.BinOp)
+		if !ok {
+			continue
+		}
+		// x.TokenType == K   or   x.TokenType & MASK != 0
+		var k ssa.Value
+		isTT := func(v ssa.Value) bool {
+			u, ok := v.(*ssa.UnOp)
+			if !ok {
+				return false
+			}
+			fa, ok := u.X.(*ssa.FieldAddr)
+			return ok && fieldName(fa) == "TokenType"
+		}
+		mask := false
+		switch {
+		case isTT(bo.X):
+			k = bo.Y
+		case isTT(bo.Y):
+			k = bo.X
+		default:
+			if inner, ok := bo.X.(*ssa.BinOp); ok && inner.Op == token.AND && (isTT(inner.X) || isTT(inner.Y)) {
+				mask = true
+				k = inner.Y
+				if isTT(inner.Y) {
+					k = inner.X
+				}
+			}
+		}
+		if k == nil {
+			continue
+		}
+		kv, ok := constInt64(k)
+		if !ok {
+			continue
+		}
+		n++
+		if mask {
+			for bit := int64(1); bit <= kv; bit <<= 1 {
+				if kv&bit != 0 {
+					name := tokenKindByValue(c, bit)
+					if !allowed[name] {
+						bad = append(bad, name)
+					}
+				}
+			}
+		} else if name := tokenKindByValue(c, kv); !allowed[name] {
+			bad = append(bad, name)
+		}
+	}
+	key := "handleToken/EMPTY-insertion"
+	switch {
+	case n == 0:
+		r.Finding("T6", key, c.P.pos(pos), "the implicit EMPTY operand is inserted without testing the bracket kinds: `()` and operators with a missing operand are accepted")
+	case len(bad) > 0:
+		r.Finding("T6", key, c.P.pos(pos), fmt.Sprintf("the implicit EMPTY operand is also inserted for token kind(s) %v: an empty `()` becomes a valid operand, so `.a + ()` or `select()` are evaluated instead of rejected", uniq(bad)))
+	default:
+		r.Discharge("T6", key, c.P.pos(pos), fmt.Sprintf("EMPTY is inserted only between the brackets of an empty collection (%d token-type tests, all on collect brackets)", n))
+	}
+}
+
+func tokenKindByValue(c *Ctx, v int64) string {
+	sc := c.P.lib().Types.Scope()
+	for _, n := range sc.Names() {
+		if cst, ok := sc.Lookup(n).(*types.Const); ok && (strings.HasPrefix(n, "open") || strings.HasPrefix(n, "close") || n == "operationToken" || n == "traverseArrayCollect") {
+			if x, ok := constant.Int64Val(constant.ToInt(cst.Val())); ok && x == v {
+				return n
+			}
+		}
+	}
+	return fmt.Sprintf("tokenType(%d)", v)
 }
